@@ -285,3 +285,6 @@ def run(chk, repo):
     from rules.C10 import rule_thread, rule_cleave
     rule_thread(chk, repo, rid='C04.g', quals=('cli.common:load_references', 'cli.generate_index:generate_index', 'cli.update_index:update_index'))
     rule_cleave(chk, repo, rid='C04.h')
+    from rules.C10 import rule_pool_shape
+    chk.clauses.append('C04.i (shared with C10.c) every protein of the proteome is digested with its own cds_start_nf / parameters: nothing is skipped or altered before the digest (no memo on the sequence alone)')
+    rule_pool_shape(chk, repo, rid='C04.i')
